@@ -519,10 +519,6 @@ theorem zip_find_isSome : ∀ (names : List Str) (args : List RTy), names.length
       simp only [hx, decide_false]
       exact zip_find_isSome xs as (by simpa using hl) n this
 
-/-- field types that only mention the item's parameters, read with closed arguments -/
-def fieldTyOkP (cfg : Cfg) (ps : List Str) (f : Field) : Bool := f.attr.skip || tyOkP cfg.limit ps f.ty
-def fieldTyOk (cfg : Cfg) (f : Field) : Bool := f.attr.skip || tyOk cfg.limit f.ty
-
 theorem fieldTyOk_inst (cfg : Cfg) (names : List Str) (args : List RTy) (hlen : names.length ≤ args.length)
     (hargs : tyOkL cfg.limit args = true) (f : Field) (h : fieldTyOkP cfg names f = true) :
     fieldTyOk cfg (Field.inst (names.zip args) f) = true := by
